@@ -159,7 +159,18 @@ def run_body(ctx, name, test, plugs):
       if ctx.on_update is not None:
         ctx.sim.hot('measurement')   # a pre-emption inside the assignment / notification path
       if mname in ctx.dim_meas:
+        # assigned twice: the second assignment overrides the coordinate
+        test.measurements[mname][inv] = 'first'
+        if ctx.on_update is not None:
+          ctx.sim.hot('measurement')
         test.measurements[mname][inv] = val
+        if ctx.on_update is not None:
+          # (a concurrent reader may have rebuilt the rendering cache between the override's
+          # invalidation and its store - the open C10 finding; then the rendering is stale for every
+          # reader, notified or not, and C18 has nothing to say)
+          cache = test.measurements[mname]._cached_basetype_values
+          stale = cache is not None and [inv, val] not in [list(x) for x in cache]
+          ctx.on_update('dimmeas', name, mname, (inv, val, stale))
         continue
       test.measurements[mname] = val
       if ctx.on_update is not None:
